@@ -393,3 +393,153 @@ Proof. vm_compute. reflexivity. Qed.
 Example ex_cut_inside_char :       (* limit-3 falls inside a 4-byte character: it is dropped entirely *)
   truncate (utf8 (120 :: repeat 128512 300)) 1000 = Ok (utf8 (120 :: repeat 128512 249 ++ dots)).
 Proof. vm_compute. reflexivity. Qed.
+
+(* ------------------------------------------------------------------ ancestry, type identification, uniform wrapping *)
+Lemma existsb_list_eqb n l : existsb (list_eqb n) l = true <-> In n l.
+Proof.
+  rewrite existsb_exists. split.
+  - intros (x & I & E). apply list_eqb_eq in E. subst. exact I.
+  - intros I. exists n. split; [exact I|]. apply list_eqb_eq. reflexivity.
+Qed.
+
+(* a field whose (escaped) original fits its limit is transmitted exactly *)
+Lemma field_of_fits orig lim b : field_of orig lim b -> blen (utf8 orig) <= lim -> b = utf8 orig.
+Proof. intros [[E _]|(L & _)] F; [exact E|lia]. Qed.
+
+Lemma forall2_in_l {A B} (R : A -> B -> Prop) l l' x : Forall2 R l l' -> In x l -> exists y, In y l' /\ R x y.
+Proof.
+  induction 1 as [|a b l l' Rab _ IH]; intros I; [destruct I|]. destruct I as [->|I].
+  - exists b. split; [left; reflexivity|exact Rab].
+  - destruct (IH I) as (y & Iy & Ry). exists y. split; [right; exact Iy|exact Ry].
+Qed.
+
+Lemma forall2_in_r {A B} (R : A -> B -> Prop) l l' y : Forall2 R l l' -> In y l' -> exists x, In x l /\ R x y.
+Proof.
+  induction 1 as [|a b l l' Rab _ IH]; intros I; [destruct I|]. destruct I as [->|I].
+  - exists a. split; [left; reflexivity|exact Rab].
+  - destruct (IH I) as (x & Ix & Rx). exists x. split; [right; exact Ix|exact Rx].
+Qed.
+
+Lemma forall2_length {A B} (R : A -> B -> Prop) l l' : Forall2 R l l' -> List.length l = List.length l'.
+Proof. induction 1; cbn; congruence. Qed.
+
+(* "identifies the remote exception's type (by class name ...)": a class name that UTF-8 can encode and that fits the
+   limit arrives byte for byte *)
+Theorem type_exact unsafe e s : get_state unsafe e = Ok s -> wf_text (e_type e) ->
+  blen (utf8 (e_type e)) <= trunc_limit_type -> s_type s = utf8 (e_type e).
+Proof.
+  intros G W L. destruct (failure_fits unsafe e) as (s' & G' & _ & _ & FT & _). rewrite G in G'. inversion G'; subst s'.
+  rewrite (escape_id _ W) in FT. exact (field_of_fits _ _ _ FT L).
+Qed.
+
+(* "... carries a prefix of its message": a message that fits arrives byte for byte *)
+Theorem value_exact unsafe e s : get_state unsafe e = Ok s -> wf_text (rendered e) ->
+  blen (utf8 (rendered e)) <= trunc_limit_value -> s_value s = utf8 (rendered e).
+Proof.
+  intros G W L. destruct (failure_fits unsafe e) as (s' & G' & _ & FV & _). rewrite G in G'. inversion G'; subst s'.
+  rewrite (escape_id _ W) in FV. exact (field_of_fits _ _ _ FV L).
+Qed.
+
+(* "(... and ancestry)": the transmitted ancestry has the length and the order of the original one (Forall2 is positional);
+   every ancestor whose name fits is found by check(), whatever happened to the other entries; and nothing is invented:
+   every transmitted entry is the field of the ancestor at its position *)
+Theorem ancestry_preserved unsafe e s : get_state unsafe e = Ok s ->
+  List.length (s_parents s) = List.length (e_parents e) /\
+  (forall n, In n (e_parents e) -> wf_text n -> blen (utf8 n) <= trunc_limit_parents ->
+             delivered_check (Copied s) (utf8 n) = true) /\
+  (forall b, delivered_check (Copied s) b = true ->
+             exists p, In p (e_parents e) /\ field_of (escape p) trunc_limit_parents b).
+Proof.
+  intros G. destruct (failure_fits unsafe e) as (s' & G' & _ & _ & _ & _ & FP). rewrite G in G'. inversion G'; subst s'.
+  split; [symmetry; exact (forall2_length _ _ _ FP)|]. split.
+  - intros n I W L. unfold delivered_check, check_names. apply existsb_list_eqb.
+    destruct (forall2_in_l _ _ _ _ FP I) as (b & Ib & Fb). rewrite (escape_id _ W) in Fb.
+    rewrite <- (field_of_fits _ _ _ Fb L). exact Ib.
+  - intros b C. unfold delivered_check, check_names in C. apply existsb_list_eqb in C.
+    exact (forall2_in_r _ _ _ _ FP C).
+Qed.
+
+(* truncation keeps the ancestry a list of the same shape for EVERY prefix: cutting the original ancestry after k classes
+   and transmitting gives the first k transmitted entries (map_res is a map: no entry depends on another) *)
+Lemma map_res_firstn {A B} (f : A -> res B) l bs k : map_res f l = Ok bs -> map_res f (firstn k l) = Ok (firstn k bs).
+Proof.
+  revert bs k. induction l as [|x l IH]; intros bs k H; cbn [map_res] in H.
+  - inversion H; subst. rewrite !firstn_nil. reflexivity.
+  - destruct (f x) as [y|] eqn:E; [|discriminate]. destruct (map_res f l) as [ys|] eqn:E2; [|discriminate].
+    inversion H; subst. destruct k; [reflexivity|]. cbn [firstn map_res]. rewrite E, (IH ys k eq_refl). reflexivity.
+Qed.
+
+Theorem ancestry_prefix_closed unsafe e s k : get_state unsafe e = Ok s ->
+  exists s', get_state unsafe {| e_type := e_type e; e_str := e_str e; e_fallback := e_fallback e; e_stack := e_stack e;
+                                 e_parents := firstn k (e_parents e) |} = Ok s' /\
+             s_parents s' = firstn k (s_parents s) /\ s_type s' = s_type s /\ s_value s' = s_value s /\
+             s_traceback s' = s_traceback s.
+Proof.
+  unfold get_state, render. cbn [e_type e_str e_fallback e_stack e_parents]. intros G.
+  destruct value_rendering_is_safe.
+  - destruct (trunc_field _ trunc_limit_value) as [bv|]; [|discriminate].
+    destruct (trunc_field (e_type e) trunc_limit_type) as [bt|]; [|discriminate].
+    destruct (trunc_field (elide _) trunc_limit_traceback) as [btb|]; [|discriminate].
+    destruct (map_res _ (e_parents e)) as [ps|] eqn:EP; [|discriminate].
+    rewrite (map_res_firstn _ _ _ k EP). inversion G; subst. eexists. split; [reflexivity|]. cbn. auto.
+  - destruct (e_str e) as [v|]; [|discriminate].
+    destruct (trunc_field _ trunc_limit_value) as [bv|]; [|discriminate].
+    destruct (trunc_field (e_type e) trunc_limit_type) as [bt|]; [|discriminate].
+    destruct (trunc_field (elide _) trunc_limit_traceback) as [btb|]; [|discriminate].
+    destruct (map_res _ (e_parents e)) as [ps|] eqn:EP; [|discriminate].
+    rewrite (map_res_firstn _ _ _ k EP). inversion G; subst. eexists. split; [reflexivity|]. cbn. auto.
+Qed.
+
+(* "or is uniformly wrapped when the Tub is configured to hide remote exception types": with types hidden, what the caller
+   can learn from check()/trap() and from f.type is the same for EVERY transmitted failure -- a Violation, a
+   RemoteException raised or relayed by the far side, anything -- namely RemoteException and its own ancestry *)
+Theorem hidden_is_uniform s1 s2 n :
+  delivered_check (deliver false s1) n = delivered_check (deliver false s2) n /\
+  delivered_type (deliver false s1) = delivered_type (deliver false s2) /\
+  delivered_check (deliver false s1) remote_exception_name = true /\
+  delivered_type (deliver false s1) = remote_exception_name.
+Proof. repeat split; reflexivity. Qed.
+
+(* and with types exposed nothing is wrapped: the caller's view is the transmitted one *)
+Theorem exposed_is_transparent s n :
+  delivered_check (deliver true s) n = existsb (list_eqb n) (s_parents s) /\ delivered_type (deliver true s) = s_type s.
+Proof. split; reflexivity. Qed.
+
+(* the whole path, composed: for EVERY exception and both settings of both options the report reaches the caller's
+   Deferred (never an exception in the callee's slicer, never a local Violation from the caller's FailureConstraint),
+   wrapped iff types are hidden; when exposed, the type name and every ancestor that fit are identified *)
+Theorem report_end_to_end unsafe expose e :
+  exists s, get_state unsafe e = Ok s /\
+    report unsafe expose e = Ok (if expose then Copied s else Wrapped s) /\
+    (expose = true -> wf_text (e_type e) -> blen (utf8 (e_type e)) <= trunc_limit_type ->
+       delivered_type (deliver expose s) = utf8 (e_type e)) /\
+    (expose = true -> forall n, In n (e_parents e) -> wf_text n -> blen (utf8 n) <= trunc_limit_parents ->
+       delivered_check (deliver expose s) (utf8 n) = true) /\
+    (expose = false -> delivered_type (deliver expose s) = remote_exception_name /\
+       forall n, delivered_check (deliver expose s) n = existsb (list_eqb n) remote_exception_parents).
+Proof.
+  destruct (failure_fits unsafe e) as (s & G & OK & _). exists s. split; [exact G|].
+  split; [unfold report; rewrite G, OK; destruct expose; reflexivity|].
+  split; [intros -> W L; exact (type_exact _ _ _ G W L)|].
+  split; [intros -> n I W L; destruct (ancestry_preserved _ _ _ G) as (_ & A & _); exact (A n I W L)|].
+  intros ->. split; reflexivity.
+Qed.
+
+Example ex_ancestry :
+  let e := {| e_type := [77; 46; 69]; e_str := Ok [109]; e_fallback := []; e_stack := [];
+              e_parents := [[77; 46; 69]; repeat 233 150; [111]] |} in
+  exists s, get_state true e = Ok s /\ List.length (s_parents s) = 3%nat /\
+    delivered_check (deliver true s) (utf8 [77; 46; 69]) = true /\ delivered_check (deliver true s) (utf8 [111]) = true /\
+    delivered_check (deliver true s) (utf8 (repeat 233 150)) = false /\
+    delivered_check (deliver false s) (utf8 [77; 46; 69]) = false /\
+    delivered_check (deliver false s) remote_exception_name = true.
+Proof. eexists. split; [vm_compute; reflexivity|]. vm_compute. auto 10. Qed.
+
+(* statements in the form props/C10.v uses *)
+Theorem escape_spec t : wf_text (escape t) /\ (wf_text t -> escape t = t).
+Proof. split; [apply escape_wf|apply escape_id]. Qed.
+
+Theorem type_and_message_exact unsafe e s : get_state unsafe e = Ok s ->
+  (wf_text (e_type e) -> blen (utf8 (e_type e)) <= trunc_limit_type -> s_type s = utf8 (e_type e)) /\
+  (wf_text (rendered e) -> blen (utf8 (rendered e)) <= trunc_limit_value -> s_value s = utf8 (rendered e)).
+Proof. intros G. split; [apply (type_exact _ _ _ G)|apply (value_exact _ _ _ G)]. Qed.
